@@ -21,7 +21,8 @@ check("C08", "Routing work computed for a transaction equals the reference (fee 
 check("C01", "Gating obligations on the real validation code: the block-level per-transaction step accepts only when Transaction::validate accepted, detects every re-spend of an output already recorded for the block or repeated inside the transaction and records every value-carrying input; the pool admits a transaction only after Transaction::validate(.., true) returned true. Decided by z3 over the MIR, all paths of the encoded bodies, small input counts.",
       "trusted: mirsym MIR semantics, std/map models, the utxo-key layout model; callees are uninterpreted; chain-history facts are outside", "MIR-to-SMT symbolic execution (mirsym) decided by z3", "DESIGN.md 4/C01")
 NOT_APPLICABLE.setdefault('C02', NA_PENDING)
-NOT_APPLICABLE.setdefault('C04', NA_PENDING)
+check("C04", "The wind/unwind dispatcher (real MIR of Blockchain::validate, wind_chain, unwind_chain) explored as a bounded transition system for every validity pattern of candidate chains up to 3 (4) blocks against old chains up to 2 (3): termination within the step bound, exact unwind-then-wind order on success, zero net effect on failure, no index panics. The recovery defects of the pinned tree are listed known findings (per size/validity class); all other classes are decided to hold.",
+      "trusted: mirsym semantics; uninterpreted callees frame-preserving; wallet/storage effects outside", "MIR-to-SMT symbolic execution (mirsym) of the dispatcher as a bounded transition system, decided by z3", "DESIGN.md 4/C04")
 check("C05", "The two fork-choice kernels agree with their reference rules for every value inside the bound: the longest-chain predicate (strictly longer, cumulative burn fee at least as large in u128, ahead of the current tip) for segments of up to 3 (4) blocks, and the 2-in-6 golden-ticket window for every ancestor depth 0..6 and flag pattern.",
       "trusted: mirsym semantics and models; which segments add_block passes in, and delivery-order effects, are outside", "MIR-to-SMT symbolic execution (mirsym) decided by z3", "DESIGN.md 4/C05")
 check("C06", "On every path of the real Block::validate body that returns true (full node, non-ghost block and parent) the creator's signature over the pre-hash was verified, the merkle root recomputed from the carried transactions equals the signed header's root, and every carried transaction passed the per-transaction validation; decided by z3 over all ~1500 paths with free callee results.",
